@@ -956,7 +956,12 @@ func (g *TxGen) make(t tx.TxType) *draft {
 			f = 100 + int64(R.Intn(3)) // many orders at (nearly) equal prices
 		}
 		vb := new(big.Int).Mul(vs, rb)
-		vb.Div(vb, rs).Mul(vb, big.NewInt(f)).Div(vb, big.NewInt(100))
+		if f == 100 {
+			// exactly at the pool price: rounded UP, the closest price the node accepts (rounded down it is "better than the pool" and refused)
+			vb.Add(vb, new(big.Int).Sub(rs, big.NewInt(1))).Div(vb, rs)
+		} else {
+			vb.Div(vb, rs).Mul(vb, big.NewInt(f)).Div(vb, big.NewInt(100))
+		}
 		if vb.Sign() == 0 {
 			vb.SetInt64(1)
 		}
